@@ -45,7 +45,12 @@ def cases(draw):
     i0, i1 = draw(bound(n_il))
     x0, x1 = draw(bound(n_xl))
     rate, bs = draw(st.sampled_from([s for s in gen.SETTINGS_3D if s[1][0] <= 16 and s[1][1] <= 16]))
-    return {"src": src, "window": [i0, i1, x0, x1], "reduce": draw(st.booleans()),
+    prior = None
+    if draw(st.integers(0, 3)) == 0:
+        # an earlier conversion, in the same process, of another survey stored under the same file name (whole
+        # cube; its last inline is, half of the time, the ordinal at which the window of the main case starts)
+        prior = {"n_il": (i0 + 1 if i0 >= 1 and draw(st.booleans()) else draw(st.integers(2, n_il))), "vseed": draw(st.integers(0, 2 ** 32 - 1))}
+    return {"src": src, "window": [i0, i1, x0, x1], "reduce": draw(st.booleans()), **({"prior": prior} if prior else {}),
             "mode": draw(st.sampled_from(["heuristic", "thorough", "exhaustive", "strip"])),
             "setting": {"rate": rate, "blockshape": list(bs)}, "via": draw(st.sampled_from(["api", "api", "cli"]))}
 
@@ -53,7 +58,14 @@ def cases(draw):
 def run_case(case, ctx):
     from seismic_zfp.read import SgzReader
     d = ctx.tmp()
+    if case.get("prior"):
+        pdesc = dict(case["src"], n_il=max(2, case["prior"]["n_il"]), values={"kind": "gauss", "vseed": case["prior"]["vseed"]}, ext=0)
+        P = sources.build(pdesc, d)
+        conv.segy_convert(P.path, os.path.join(d, "prior.sgz"), case["setting"]["rate"], tuple(case["setting"]["blockshape"]),
+                          reduce_iops=case["reduce"], header_detection=case["mode"])
     S = sources.build(case["src"], d)
+    if case.get("prior") and S.path != P.path:
+        raise RuntimeError("harness: prior and main source are meant to share a path")
     n_il, n_xl, ns = case["src"]["n_il"], case["src"]["n_xl"], case["src"]["ns"]
     i0, i1, x0, x1 = case["window"]
     rate, bs = case["setting"]["rate"], tuple(case["setting"]["blockshape"])
@@ -71,21 +83,22 @@ def run_case(case, ctx):
     if not codec.bits_equal(ref_src["traces"], S.traces[sel]):
         raise RuntimeError("harness: reference SEG-Y does not hold the windowed traces")
     ref = os.path.join(d, "ref.sgz")
-    conv.segy_convert(ref_sgy, ref, rate, bs, header_detection=mode)
     win = os.path.join(d, "win.sgz")
+    # the windowed conversion comes first (directly after the optional prior conversion), the reference after it
     if case["via"] == "api":
         conv.segy_convert(S.path, win, rate, bs, reduce_iops=case["reduce"], header_detection=mode, window=(i0, i1, x0, x1))
+        conv.segy_convert(ref_sgy, ref, rate, bs, header_detection=mode)
     else:
         if mode != "heuristic":
             case = dict(case, mode="heuristic")   # the CLI has no detection option
             mode = "heuristic"
-            conv.segy_convert(ref_sgy, ref, rate, bs, header_detection=mode)
         bpv = rate if rate >= 1 else -int(round(1 / rate))
         code, exc = conv.cli_invoke(["sgy2sgz", S.path, win, "--bits-per-voxel", int(bpv), "--blockshape", *bs,
                                      "--reduce-iops", "True" if case["reduce"] else "False",
                                      "--min-il", i0, "--max-il", i1, "--min-xl", x0, "--max-xl", x1])
         if code != 0:
             raise Violation("cli-failed", f"exit {code}: {exc!r}")
+        conv.segy_convert(ref_sgy, ref, rate, bs, header_detection=mode)
     a, b = spec.SgzSpec(conv.read_bytes(win)), spec.SgzSpec(conv.read_bytes(ref))
     da = a.raw[a.data_start:a.footer_start]
     db = b.raw[b.data_start:b.footer_start]
@@ -124,7 +137,7 @@ def run_case(case, ctx):
     return {"sig": [i0 == 0, x0 == 0, i1 == n_il, x1 == n_xl, case["reduce"], mode, (4 * S.n) % 512 == 0,
                     (4 * len(sel)) % 512 == 0, fam, case["via"]] if not full else None,
             "labels": [mode, case["via"], "reduced" if case["reduce"] else "segyio", "full" if full else "window",
-                       "min0" if (i0 == 0 or x0 == 0) else "min>0"]}
+                       "min0" if (i0 == 0 or x0 == 0) else "min>0"] + (["after-prior-conversion"] if case.get("prior") else [])}
 
 
 def shard_main(ctx):
